@@ -369,6 +369,27 @@ func slogFunc(recv, name string, extra map[string]shim) transFunc {
 		calls: merge(slogCalls, extra)}
 }
 
+// ---- opening and building (writer.go, config.go, sink.go, global.go): call-order / cleanup skeletons.  url.Parse, the
+// sink registry, the OS opener, Close, the closures handed back and the standard logger's state are recorded intrinsics
+// or pseudo-fields; what is proved is WHICH of them are called, in what order, on which path.
+var openTypes = map[string]string{"zapcore.WriteSyncer": "opt:Sink", "io.Closer": "opt:Sink", "Sink": "opt:Sink", "func()": "opt:Closure",
+	"*url.URL": "ptr:struct:URL", "*Logger": "Logger", "zapcore.Level": "i8"}
+var openStructs = map[string][]fieldSpec{
+	"URL": {{"Scheme", "string"}, {"User", "opt:Userinfo"}, {"Fragment", "string"}, {"RawQuery", "string"}, {"Path", "string"},
+		{"Rest", "URLRest"}},
+}
+var openFields = map[string]fieldSpec{"#ev": {"ev", "[]Event"}}
+var openCalls = map[string]shim{
+	"fmt.Errorf":      {kind: "ext", f: "fmt.Errorf", res: []string{"error"}},
+	"errors.New":      {kind: "ext", f: "errors.New", res: []string{"error"}},
+	"multierr.Append": {kind: "builtin", f: "append...", res: []string{"error"}},
+}
+
+func openFunc(file, recv, name string, fields map[string]fieldSpec, consts map[string]string, extra map[string]shim) transFunc {
+	return transFunc{file: file, recv: recv, name: name, lean: name, fields: merge2(openFields, fields), types: openTypes,
+		structs: openStructs, consts: consts, calls: merge(openCalls, extra)}
+}
+
 var stdCalls = map[string]shim{
 	"bytes.IndexByte":       {kind: "builtin", f: "bytes.IndexByte", res: []string{"int"}},
 	"strings.IndexByte":     {kind: "builtin", f: "strings.IndexByte", res: []string{"int"}},
@@ -644,6 +665,54 @@ var transSpecs = []transSpec{
 				args: []string{"ce", "record"}, res: "error", trace: "#ev"}
 			return f
 		}(),
+	}},
+	{table: "TransOpen", funcs: []transFunc{
+		openFunc("writer.go", "", "open", nil, nil, map[string]shim{
+			"_sinkRegistry.newSink": {kind: "extstmt", f: "sinkRegistry.newSink", res: []string{"opt:Sink", "error"}, trace: "#ev"},
+			"opt:Sink.Close":            {kind: "extstmt", f: "Sink.Close", res: []string{"error"}, trace: "#ev"},
+		}),
+		openFunc("config.go", "Config", "openSinks",
+			map[string]fieldSpec{"OutputPaths": {"outputPaths", "[]string"}, "ErrorOutputPaths": {"errorOutputPaths", "[]string"}}, nil,
+			map[string]shim{
+				"Open":          {kind: "extstmt", f: "zap.Open", res: []string{"opt:Sink", "opt:Closure", "error"}, trace: "#ev"},
+				"opt:Closure()": {kind: "extstmtfn", f: "Closure.call", trace: "#ev"},
+			}),
+		openFunc("sink.go", "sinkRegistry", "newFileSinkFromPath", nil,
+			map[string]string{"nopCloserSink{os.Stdout}": "val:opt:Sink|.list [.int 1]", "nopCloserSink{os.Stderr}": "val:opt:Sink|.list [.int 2]",
+				"os.O_WRONLY": "1", "os.O_APPEND": "1024", "os.O_CREATE": "64"},
+			map[string]shim{"recv.openFile": {kind: "extstmt", f: "sinkRegistry.openFile", res: []string{"opt:Sink", "error"}, trace: "#ev"}}),
+		openFunc("sink.go", "sinkRegistry", "newFileSinkFromURL", nil, nil, map[string]shim{
+			"ptr:struct:URL.Port":       {kind: "ext", f: "URL.Port", res: []string{"string"}},
+			"ptr:struct:URL.Hostname":   {kind: "ext", f: "URL.Hostname", res: []string{"string"}},
+			"recv.newFileSinkFromPath":  {kind: "fun", f: "newFileSinkFromPath", res: []string{"opt:Sink", "error"}},
+		}),
+		openFunc("sink.go", "sinkRegistry", "newSink",
+			map[string]fieldSpec{"mu": {"mu", "Mutex"}, "factories": {"factories", "map:string:SinkFactory"}},
+			map[string]string{"schemeFile": "src"},
+			map[string]shim{
+				"filepath.IsAbs":             {kind: "ext", f: "filepath.IsAbs", res: []string{"bool"}},
+				"url.Parse":                  {kind: "extstmt", f: "url.Parse", res: []string{"ptr:struct:URL", "error"}},
+				"Mutex.Lock":                 {kind: "extstmt", f: "Mutex.Lock", trace: "#ev"},
+				"Mutex.Unlock":               {kind: "extstmt", f: "Mutex.Unlock", trace: "#ev"},
+				"map:string:SinkFactory[]":   {kind: "extstmt", f: "factories.get", res: []string{"SinkFactory", "bool"}},
+				"SinkFactory()":              {kind: "extstmtfn", f: "SinkFactory.call", res: []string{"opt:Sink", "error"}, trace: "#ev"},
+				"&errSinkNotFound":           {kind: "ext", f: "errSinkNotFound", res: []string{"error"}},
+				"recv.newFileSinkFromPath":   {kind: "fun", f: "newFileSinkFromPath", res: []string{"opt:Sink", "error"}},
+			}),
+		openFunc("global.go", "", "redirectStdLogAt",
+			map[string]fieldSpec{"#std.flags": {"std.flags", "int"}, "#std.prefix": {"std.prefix", "string"}, "#std.out": {"std.out", "Writer"}},
+			map[string]string{"_stdLogDefaultDepth": "src", "_loggerWriterDepth": "src"},
+			map[string]shim{
+				"Logger.WithOptions": {kind: "ext", f: "Logger.WithOptions", res: []string{"Logger"}},
+				"AddCallerSkip":      {kind: "ext", f: "AddCallerSkip", res: []string{"Option"}},
+				"levelToFunc":        {kind: "extstmt", f: "levelToFunc", res: []string{"LogFunc", "error"}},
+				"log.Flags":          {kind: "ext", f: "id", with: []string{"#std.flags"}, res: []string{"int"}},
+				"log.Prefix":         {kind: "ext", f: "id", with: []string{"#std.prefix"}, res: []string{"string"}},
+				"log.SetFlags":       {kind: "extfld", f: "set", flds: []string{"#std.flags"}},
+				"log.SetPrefix":      {kind: "extfld", f: "set", flds: []string{"#std.prefix"}},
+				"log.SetOutput":      {kind: "extfld", f: "set", flds: []string{"#std.out"}},
+				"&loggerWriter":      {kind: "ext", f: "loggerWriter", res: []string{"Writer"}},
+			}),
 	}},
 	{table: "TransLogger", funcs: []transFunc{
 		{file: "logger.go", name: "terminalHookOverride", lean: "terminalHookOverride", types: loggerTypes, consts: hookConsts},
